@@ -11,11 +11,12 @@ import coqlit as L
 ID = "C13"
 COQ_PROPERTY_FILE = "Properties/C13.v"
 COQ_DEPS = ["Common/ListX.v", "Common/ObsHash.v", "Generated/Tables.v", "Model/DataCollector.v", "Model/Batch.v",
-            "Proofs/DataCollectorProofs.v", "Proofs/BatchProofs.v"]
+            "Proofs/DataCollectorProofs.v", "Proofs/BatchProofs.v", "Proofs/BatchBridge.v"]
 COQ_IMPORTS = "From Mesa Require Import Model.DataCollector Model.Batch."
 COQ_CASE_TYPE = "Batch.case"
 COQ_RUN = "Batch.run_case"
-TABLE_CONSTRUCTS = []
+TABLE_CONSTRUCTS = ["br_loop_cond_code", "br_report_steps_code", "br_model_data_code", "br_param_values_code",
+                    "br_runs_list_code", "br_skeleton"]
 SHRINK = True
 RULE = ("histories = 1-2 batch_run calls on the scripted model class BM: parameter dictionaries over n, stop, ic, sc, ar, churn, k "
         "(ints, None) and two pass-through parameters (strings, dicts, lists as values) given as scalars, strings, lists, tuples, "
@@ -29,6 +30,10 @@ TRUSTED_BASE = [
     "no axioms: Print Assumptions reports 'Closed under the global context' for every C13 theorem",
     "harness/props/C13.py driver+observer, props/batch_models.py (the batch-run model class, mirrored by Batch.v:bm_init/bm_step) "
     "and the Gallina literal printer (T2, differential testing, not a proof)",
+    "harness/pyexpr.py + harness/tables/datacollect_batch_code.py (code-level T1): the loop condition, the reported-steps "
+    "computation, the position lookup / model_data comprehension, the per-parameter str/empty/iterable decision and the runs-list "
+    "loop nest with its RunId counter are translated from the working tree on every run and bridged to the model "
+    "(Proofs/BatchBridge.v); the glue statements of batch_run/_model_run_func/_collect_data are pinned verbatim",
     "Model/Batch.v is a hand transcription of mesa/batchrunner.py on top of Model/DataCollector.v",
     "multiprocessing is not modelled: completion order is an arbitrary permutation of the runs (theorem C13_order_irrelevant); "
     "rows are compared as multisets",
